@@ -52,7 +52,7 @@ class Run:
 
     def need(self, thing, what):
         """Anchor must exist."""
-        if thing is None or thing is False:
+        if thing is None or thing is False or (isinstance(thing, (list, tuple, set, dict)) and len(thing) == 0):
             raise Broken("anchor vanished: " + what)
         return thing
 
